@@ -22,13 +22,20 @@ pub open spec fn ext_add(a: Ext, b: Ext) -> Ext {
         (Ext::Fin(x), Ext::Fin(y)) => Ext::Fin(x + y),
     }
 }
+// Products and quotients of reals go through these OPAQUE wrappers: the solver sees uninterpreted functions unless a
+// (small) lemma reveals them.  Raw nonlinear real terms make failing queries hang instead of failing, and make
+// passing ones unstable.
+#[verifier::opaque]
+pub open spec fn rmul_s(c: real, a: real) -> real { c * a }
+#[verifier::opaque]
+pub open spec fn rdiv_s(a: real, d: real) -> real { a / d }
 pub open spec fn sgn(a: Ext) -> int {   // -1, 0, 1 ; NaN -> 2
     match a { Ext::NaN => 2, Ext::NegInf => -1, Ext::PosInf => 1, Ext::Fin(x) => if x > 0real { 1 } else if x < 0real { -1 } else { 0 } }
 }
 pub open spec fn ext_mul(a: Ext, b: Ext) -> Ext {
     match (a, b) {
         (Ext::NaN, _) | (_, Ext::NaN) => Ext::NaN,
-        (Ext::Fin(x), Ext::Fin(y)) => Ext::Fin(x * y),
+        (Ext::Fin(x), Ext::Fin(y)) => Ext::Fin(rmul_s(x, y)),
         _ => if sgn(a) == 0 || sgn(b) == 0 { Ext::NaN } else if sgn(a) == sgn(b) { Ext::PosInf } else { Ext::NegInf },
     }
 }
@@ -36,7 +43,7 @@ pub open spec fn ext_div(a: Ext, b: Ext) -> Ext {
     match (a, b) {
         (Ext::NaN, _) | (_, Ext::NaN) => Ext::NaN,
         // x / 0: sign of zero ignored -> the result is +-inf with unknown sign; modelled by the sign of x (as for +0)
-        (Ext::Fin(x), Ext::Fin(y)) => if y != 0real { Ext::Fin(x / y) } else if x == 0real { Ext::NaN } else if x > 0real { Ext::PosInf } else { Ext::NegInf },
+        (Ext::Fin(x), Ext::Fin(y)) => if y != 0real { Ext::Fin(rdiv_s(x, y)) } else if x == 0real { Ext::NaN } else if x > 0real { Ext::PosInf } else { Ext::NegInf },
         (Ext::Fin(_), _) => Ext::Fin(0real),
         (_, Ext::Fin(y)) => if (sgn(a) == 1) == (y >= 0real) { Ext::PosInf } else { Ext::NegInf },
         _ => Ext::NaN,
@@ -152,3 +159,12 @@ pub fn vx_to_f64<T: VxToF64>(x: T) -> (r: F64) ensures fv(r) == Ext::Fin(x.as_re
 pub open spec fn finite(x: F64) -> bool { fv(x) is Fin }
 pub open spec fn rv(x: F64) -> real { fv(x)->Fin_0 }
 // ============================ end of trusted F64 layer ============================
+// targeted instances of the operator axioms (proved from the broadcast axioms above): for functions where
+// broadcasting the whole group is too expensive for the solver
+pub proof fn lemma_f_neg(a: F64) ensures fv(f_neg(a)) == ext_neg(fv(a)) { broadcast use ax_neg; }
+pub proof fn lemma_f_mul_by(b: F64) ensures forall|a: F64| fv(#[trigger] f_mul(a, b)) == ext_mul(fv(a), fv(b)) { broadcast use ax_mul; }
+pub proof fn lemma_f_mul_of(a: F64) ensures forall|b: F64| fv(#[trigger] f_mul(a, b)) == ext_mul(fv(a), fv(b)) { broadcast use ax_mul; }
+// units whose specs talk about raw products (tableau row operations) open the wrappers again
+pub broadcast proof fn lemma_rmul_def(c: real, a: real) ensures #[trigger] rmul_s(c, a) == c * a { reveal(rmul_s); }
+pub broadcast proof fn lemma_rdiv_def(a: real, d: real) ensures #[trigger] rdiv_s(a, d) == a / d { reveal(rdiv_s); }
+pub broadcast group arith_open { lemma_rmul_def, lemma_rdiv_def }
